@@ -1,5 +1,6 @@
 import AslProofs.ArrayRefine
 import AslProofs.ArraySpecLemmas
+import AslProofs.ArrayQsort
 /-!
 # C01 — Array, Stack and Queue behave as a sequence for every operation history
 
@@ -147,6 +148,28 @@ theorem lifecycle [DecidableEq α] (E : Elem α) (ops : List (Op α)) (hsafe : A
     have hocc : st'.occ i = true := (occ_iff st' i).mpr ⟨b, by rw [List.getElem?_eq_getElem hi, hget]⟩
     rw [hall i] at hocc; cases hocc
   exact ⟨by rw [hf.sum, sumN_eq_zero _ hnone], hnone⟩
+
+/-! ## `sort()` : the Hoare-partition quicksort of foreach1.h -/
+
+/-- the full statement about `sort`: for a strict total order the transcribed quicksort never indexes outside
+the sequence, ends within its fuel, and returns the sorted sequence (`isort` = insertion sort, the reference) -/
+def quicksort_full : Prop :=
+  ∀ (β : Type) (lt : β → β → Bool),
+    (∀ a, lt a a = false) → (∀ a b c, lt a b = true → lt b c = true → lt a c = true) →
+    (∀ a b, lt a b = true ∨ a = b ∨ lt b a = true) →
+    ∀ l : List β, qsortList lt l = some (isort lt l)
+
+/-- proved part 1: whenever the quicksort ends without leaving the sequence, its result is a permutation of
+the input of the same length (for any comparison function whatsoever) -/
+theorem quicksort_perm_partial [DecidableEq α] (lt : α → α → Bool) (l l' : List α) (h : qsortList lt l = some l') :
+    l'.Perm l ∧ l'.length = l.length :=
+  ⟨qsortList_perm lt h, qsortList_length lt h⟩
+
+/-- proved part 2: `quicksort_full` holds for every sequence of length ≤ 4 over four values — that is, for every
+order pattern (with and without repeated elements) of up to four elements — and for every sequence of length
+≤ 6 over three values -/
+theorem quicksort_small_exhaustive_partial : qsUpTo [0, 1, 2, 3] 4 = true ∧ qsUpTo [0, 1, 2] 6 = true := by
+  constructor <;> decide +kernel
 
 /-! ## consequences inside the reference semantics (inherited by the model through `array_refines_seq_partial`:
 every reachable model state is `Good st sp`, and `Good.spwf` gives the hypotheses used here) -/
